@@ -21,7 +21,7 @@ def main(tier, seed, replay):
         "rule": "one case = 2-3 processes each doing GetSession+Encrypt for the same partition, parked before every metastore call and released one at a time by a seeded "
                 "(uniform or PCT-priority) schedule; 6 starting states x {default, minute precision, no cache, shared LRU-2}; non-trivial = distinct (state, config, schedule) in which at "
                 "least one insert was refused",
-        "refused_inserts": sum(c.get("refused", 0) for c in cases), "states": sorted(set(c["state"] for c in cases)),
+        "refused_inserts": sum(c.get("refused", 0) for c in cases), "starting_states": sorted(set(c["state"] for c in cases)),
         "samples": [{k: cases[0][k] for k in ("state", "cfg", "procs", "trace", "stores", "refused")}],
     })
     ck.cov["trusted_base"] += ["processes are goroutines with separate factories and caches sharing one in-memory metastore and KMS; interleaving granularity = metastore calls",
